@@ -216,3 +216,25 @@ def _defines_outside_use(stmt: ast.AST, use: ast.AST, name: str) -> bool:
         # after the use is evaluated, and it is found as a preceding definition elsewhere
         return False
     return _defines(stmt, name)
+
+
+def expanded(func: ast.AST, expr: ast.AST, depth: int = 4) -> ast.AST:
+    """A copy of expr in which every local that has exactly one, plain, definition in func is
+    replaced by (a copy of) the expression it was bound to -- what the expression says once
+    single-definition temporaries are read through."""
+    import copy
+
+    defs = definitions(func)
+
+    class R(ast.NodeTransformer):
+        def __init__(self, d):
+            self.d = d
+
+        def visit_Name(self, node):
+            if isinstance(node.ctx, ast.Load) and self.d > 0:
+                v = single_value(defs, node.id)
+                if v is not None and not any(isinstance(x, ast.Name) and x.id == node.id for x in ast.walk(v)):
+                    return R(self.d - 1).visit(copy.deepcopy(v))
+            return node
+
+    return R(depth).visit(copy.deepcopy(expr))
